@@ -60,10 +60,10 @@ func (s *Schema) Clone() *Schema {
 
 // Mutant is a schema that breaks exactly one rule of the language.
 type Mutant struct {
-	Op     string   // the rule that is broken
-	Site   string   // where
+	Op     string // the rule that is broken
+	Site   string // where
 	Schema *Schema
-	Names  []string // the error must mention at least one of these (the offending element)
+	Names  []string          // the error must mention at least one of these (the offending element)
 	Text   map[string]string // optional raw text overrides: "<pkg id>/<file>" -> text
 }
 
